@@ -117,6 +117,7 @@ func check(args []string) {
 		os.Exit(2)
 	}
 	replayDir := filepath.Join(*verif, "replays", *prop)
+	os.RemoveAll(replayDir) // replays describe this run only
 	os.MkdirAll(replayDir, 0o755)
 	var results []vc.Result
 	var funcs []map[string]interface{}
